@@ -311,7 +311,9 @@ def gen_history(rng, dist, codec=None, audio=None, fast=None, md=None, nv=None, 
     na = (rng.randrange(0, 12) if audio != "none" else 0) if na is None else na
     step = rng.choice(FPS_GRIDS)
     # 47721.858 s = 2^32 ticks of the 90 kHz clock: uptime-clock timestamps and streams that cross it
-    t0 = rng.choice([0.0, 0.0, 0.0, 1.0, 3600.0, 0.5, 47721.8, 47721.85, 50400.0, 1.0e6]) if start is None else start
+    # (2^63 - k*4096) / 90000 s: a stream whose tick values cross 2^63 within a few frames (doubles up there are 1024-2048 ticks apart)
+    t0 = rng.choice([0.0, 0.0, 0.0, 1.0, 3600.0, 0.5, 47721.8, 47721.85, 50400.0, 1.0e6,
+                     (2 ** 63 - 4096 * rng.randrange(1, 4)) / 90000.0]) if start is None else start
     reorder = (rng.random() < 0.35) if reorder is None else reorder
     # decode-order video frames
     vops = []
@@ -393,6 +395,48 @@ def gen_history(rng, dist, codec=None, audio=None, fast=None, md=None, nv=None, 
     dist["na=%s" % ("0" if na == 0 else "1" if na == 1 else "2-5" if na <= 5 else "6+")] += 1
     return cfg, ops, dict(codec=codec, audio=audio, nv=nv, na=na, fast=fast)
 
+
+
+def gen_conv_history(rng, dist, codec=None, audio=None, fast=None, finish="fins", **_):
+    """a history written through the convenience forms: encode_video(data, duration_ms) and
+    encode_audio(data, samples) keep their own running clocks; frame lengths VARY from call to call
+    (Opus 10/20/40/60 ms packets, a short last AAC frame, VFR video), explicit write_audio calls at the
+    clock's value are mixed in, and some calls are refused"""
+    codec = codec or rng.choice(VCODECS)
+    audio = audio if audio is not None else rng.choice(AUDIOS)
+    fast = rng.randrange(2) if fast is None else fast
+    rate = 48000 if audio == "opus" else rng.choice([48000, 44100, 32000])
+    cfg = cfg_str(codec=codec, audio=audio, rate=rate, ch=rng.choice([1, 2]), fast=fast, **rand_metadata(rng))
+    nv = rng.randrange(1, 9)
+    na = rng.randrange(0, 9) if audio != "none" else 0
+    ev, tv = [], 0.0
+    for i in range(nv):
+        ms = rng.choice([33, 40, 16, 1001, 1, 100])
+        f = key_frame(rng, codec) if i == 0 or rng.random() < 0.15 else delta_frame(rng, codec)
+        if codec in ("h264", "h265") and (f.endswith(SC3) or f.endswith(b"\x00")):
+            f = f.rstrip(b"\x00") + b"\x80" if not f.endswith(SC3) else f[:-3]
+        ev.append((tv, "ev %s %d" % (hx(f), ms)))
+        tv += ms / 1000.0
+    ea, ta = [], 0.0
+    for i in range(na):
+        smp = rng.choice([480, 960, 1920, 2880]) if audio == "opus" else rng.choice([1024, 1024, 960, 512])
+        f = audio_frame(rng, audio)
+        if rng.random() < 0.2:
+            ea.append((ta, "wa %s %s" % (f64bits(ta), hx(f))))      # explicit call at the clock's value: the clock does not move
+            dist["conv_mixed_explicit_audio"] += 1
+            continue
+        ea.append((ta, "ea %s %d" % (hx(f), smp)))
+        ta += smp / float(rate)
+    seq = [ev[0]] + sorted(ev[1:] + ea, key=lambda x: x[0])
+    ops = []
+    for t, op in seq:
+        if rng.random() < 0.08:
+            ops.append(rng.choice(["ea - 960", "ea 00 960", "ev - 33", "wa %s -" % f64bits(t)]))   # refused
+        ops.append(op)
+    if finish:
+        ops.append(finish)
+    dist["conv_history"] += 1
+    return cfg, ops, dict(codec=codec, audio=audio, nv=nv, na=na, fast=fast)
 
 def gen_bad_op(rng, codec, audio, ts):
     """an op that should be rejected (or at least is unusual) around time ts"""
@@ -496,7 +540,10 @@ def gen_hist_cases(rng, tier, dist, nq, nt, extra="", **kw):
     n = nq if tier == "quick" else nt
     out = []
     for _ in range(n):
-        cfg, ops, info = gen_history(rng, dist, **kw)
+        if rng.random() < 0.12 and not kw.get("nv") and not kw.get("start"):
+            cfg, ops, info = gen_conv_history(rng, dist, **kw)
+        else:
+            cfg, ops, info = gen_history(rng, dist, **kw)
         if extra:
             cfg += " " + extra
         out.append(pcase(cfg, ops))
@@ -1238,10 +1285,39 @@ def av1_keyframe_from(rng, dist, force=None):
     return b"".join(parts)
 
 
+
+def frag_bops_cases(rng, dist, n):
+    """fragmented muxer built from a builder call sequence in which parameters of OTHER codecs were
+    supplied too (an earlier codec choice, a stale with_vps / with_av1_sequence_header / with_vp9_config):
+    the init segment must describe the codec of the last video call with that codec's parameters only"""
+    params = {"h264": ["sps:6742001e", "pps:68ce3880"], "h265": ["vps:40010c01", "sps:420101", "pps:4401c1"],
+              "av1": ["av1:0a0b00000024cf7f0d80340120"], "vp9": ["vp9:64.64.0.8.2.2.2.10.0"]}
+    out = []
+    for _ in range(n):
+        final = rng.choice(VCODECS)
+        ops = []
+        for other in rng.sample(VCODECS, rng.randrange(0, 3)):
+            if other != final:
+                if rng.random() < 0.5:
+                    ops.append("%s:%s:%d:%d" % (rng.choice(["v", "sv"]), other, 320, 240))
+                ops += rng.sample(params[other], rng.randrange(1, len(params[other]) + 1))
+        tail = ["%s:%s:%d:%d" % (rng.choice(["v", "sv"]), final, rng.choice([640, 16]), rng.choice([480, 16]))] + list(params[final])
+        rng.shuffle(tail)
+        if rng.random() < 0.5:
+            rng.shuffle(ops)
+            ops = ops + tail
+        else:
+            k = rng.randrange(len(tail) + 1)
+            ops = tail[:k] + ops + tail[k:]
+        out.append(fcase("via=bops bops=" + ",".join(ops), ["finit", "fw 0 0 aabb 1", "fflush", "finitfresh"]))
+        dist["frag_bops_foreign_params"] += 1
+    return out
+
 def gen_C07(rng, tier, dist):
     # the configuration must be that of the first ACCEPTED key frame, whatever was refused before it
     out = smallscope_histories(tier, dist, maxlen=3 if tier == "quick" else 4,
                                cfgs=[("h264", "aac-lc", 1), ("h265", "opus", 0), ("av1", "aac-lc", 1), ("vp9", "opus", 0)])
+    out += frag_bops_cases(rng, dist, 150 if tier == "quick" else 8000)
     n = 1500 if tier == "quick" else 100000
     for _ in range(n):
         codec = rng.choice(VCODECS)
@@ -1293,7 +1369,7 @@ def gen_C07(rng, tier, dist):
 
 
 def gen_C19(rng, tier, dist):
-    out = []
+    out = frag_bops_cases(rng, dist, 80 if tier == "quick" else 4000)
     dims = [(640, 480), (1, 1), (65535, 65535), (1920, 1080)]
     rates = [48000, 44100, 8000, 96000, 65535]
     for codec in VCODECS:
